@@ -1,4 +1,4 @@
-import SslModel.Lemmas.Ty
+import SslModel.Lemmas.TyOrder
 /-!
 # C05 — outcomes are independent of hash order
 
@@ -7,9 +7,13 @@ for the iteration order of one particular `HashSet` / `HashMap` instance.  Indep
 order is invariance under permutation of those lists.  Proved here: type equality and the subtype
 test give the same answer for every order; equal unions / structs have equal sizes (what their
 `Hash` implementations feed to the hasher, so equal types hash equally); the all-based queries are
-order independent.  The fold-based queries (`index_result`, `params`, …) and program-level
-determinism are exercised by repetition (K parses + runs per program, in one process and across
-processes): tools/props/c05.py.
+order independent; and the queries that fold the members' answers with `concat`
+(`index_result`, `element_type`, `return_type`, `mut_element_type`, `field_type`) answer, for every
+order of the members, either nothing in both orders or types that match each other in both
+directions (`*_order_independent`, from `concat` being a least upper bound).  `params` /
+`flatten_tuple` (which fold with `conjoin` / pointwise `concat`) and program-level determinism are
+exercised by repetition (K parses + runs per program, in one process and across processes):
+tools/props/c05.py.
 -/
 set_option linter.unusedSimpArgs false
 namespace Ssl.C05
@@ -104,6 +108,60 @@ theorem is_mut_order (ms ms' : List Ty) (hp : ms.Perm ms') :
 theorem has_field_order (k : String) (ms ms' : List Ty) (hp : ms.Perm ms') :
     hasField k (.multi ms) = hasField k (.multi ms') := by
   simp only [hasField, hp.all_eq]
+
+/-! ## queries that join the members' answers -/
+
+/-- the conclusion shared by the five theorems below -/
+def SameAnswer (q : Ty → Option Ty) (a b : Ty) : Prop :=
+  (q a = none ∧ q b = none) ∨ ∃ r r', q a = some r ∧ q b = some r' ∧ sub r r' = true ∧ sub r' r = true
+
+theorem index_result_order_independent (ms ms' : List Ty) (hp : ms.Perm ms') (hw : wf (.multi ms) = true) :
+    SameAnswer indexResult (.multi ms) (.multi ms') := by
+  unfold SameAnswer indexResult
+  apply query_order_independent _ ms ms' (by intro h; subst h; simp [wf] at hw) (fun x => hp.mem_iff)
+  intro m hm t ht
+  have wm := (isMulti_false_of_member hw hm).2.2.2
+  cases m <;> simp at ht <;> subst ht
+  · rfl
+  · simpa [wf] using wm
+
+theorem element_type_order_independent (ms ms' : List Ty) (hp : ms.Perm ms') (hw : wf (.multi ms) = true) :
+    SameAnswer elementType (.multi ms) (.multi ms') := by
+  unfold SameAnswer elementType
+  apply query_order_independent _ ms ms' (by intro h; subst h; simp [wf] at hw) (fun x => hp.mem_iff)
+  intro m hm t ht
+  have wm := (isMulti_false_of_member hw hm).2.2.2
+  cases m <;> simp at ht <;> subst ht
+  simpa [wf] using wm
+
+theorem return_type_order_independent (ms ms' : List Ty) (hp : ms.Perm ms') (hw : wf (.multi ms) = true) :
+    SameAnswer returnType (.multi ms) (.multi ms') := by
+  unfold SameAnswer returnType
+  apply query_order_independent _ ms ms' (by intro h; subst h; simp [wf] at hw) (fun x => hp.mem_iff)
+  intro m hm t ht
+  have wm := (isMulti_false_of_member hw hm).2.2.2
+  cases m <;> simp at ht <;> subst ht
+  simp only [wf, Bool.and_eq_true] at wm; exact wm.2
+
+theorem mut_element_type_order_independent (ms ms' : List Ty) (hp : ms.Perm ms') (hw : wf (.multi ms) = true) :
+    SameAnswer mutElementType (.multi ms) (.multi ms') := by
+  unfold SameAnswer mutElementType
+  apply query_order_independent _ ms ms' (by intro h; subst h; simp [wf] at hw) (fun x => hp.mem_iff)
+  intro m hm t ht
+  have wm := (isMulti_false_of_member hw hm).2.2.2
+  cases m <;> simp at ht <;> subst ht
+  simpa [wf] using wm
+
+theorem field_type_order_independent (k : String) (ms ms' : List Ty) (hp : ms.Perm ms') (hw : wf (.multi ms) = true) :
+    SameAnswer (fieldType k) (.multi ms) (.multi ms') := by
+  unfold SameAnswer fieldType
+  apply query_order_independent _ ms ms' (by intro h; subst h; simp [wf] at hw) (fun x => hp.mem_iff)
+  intro m hm t ht
+  have wm := (isMulti_false_of_member hw hm).2.2.2
+  cases m <;> simp at ht
+  rename_i fs
+  simp only [wf, Bool.and_eq_true] at wm
+  exact wfF_mem wm.1 (lookupF_mem ht)
 
 /-! ## non-vacuity -/
 example : [Ty.int, Ty.arr .any].Perm [Ty.arr .any, Ty.int] := List.Perm.swap _ _ _
